@@ -239,6 +239,7 @@ func runC18(c *Ctx) {
 	}
 
 	ruleLMTPLoopComplete(c)
+	ruleLMTPFlag(c)
 
 	R.Rule("R-lmtp-error-not-lost", "E4", "a per-recipient SMTPError flows to the callback or, when no callback was supplied, to Close's return value; any other read error is returned", 2)
 	if f := c18ReplyLoopFunc(c); f != nil {
@@ -510,4 +511,17 @@ func quoteAll(ss []string) []string {
 		out = append(out, regexp.QuoteMeta(x))
 	}
 	return out
+}
+
+// ruleLMTPFlag (C18, C16): Close reads one reply per recipient only when Client.lmtp is set, and only NewClientLMTP
+// sets it — on every path, before the client is handed out. Without the flag an LMTP exchange is read as SMTP: one
+// reply is taken for the whole message and the others are left in the stream for the next commands.
+func ruleLMTPFlag(c *Ctx) {
+	R := c.R
+	_, s := c.Std()
+	R.Rule("R-lmtp-flag", "E1 must + who-may-write", "NewClientLMTP certainly sets Client.lmtp = true; nothing else writes the flag", 2)
+	if f := c.A.Func("NewClientLMTP"); f != nil {
+		R.Ob("NewClientLMTP/sets the LMTP flag", c.P.Pos(f.Pos()), s.Must(f)["st:Client.lmtp=true"], "NewClientLMTP does not certainly store Client.lmtp = true; events: "+fmt.Sprint(s.Must(f).list()))
+	}
+	c.obWriters("Client.lmtp", "the protocol flavour is fixed when the client is created", "NewClientLMTP")
 }
